@@ -189,7 +189,12 @@ func init() {
 		return nil
 	})
 	reg(v("Assert"), func(ex *Exec, a []Value, fr *Frame) Value {
-		ex.assertObl(ex.strArg(a[0]), ex.asBool(a[1]), "")
+		ex.assertObl(ex.strArg(a[0]), ex.asBool(a[1]), "", false)
+		return nil
+	})
+	reg(v("Check"), func(ex *Exec, a []Value, fr *Frame) Value {
+		// an obligation that is independent of the ones that follow: recorded, nothing is assumed afterwards
+		ex.assertObl(ex.strArg(a[0]), ex.asBool(a[1]), "", true)
 		return nil
 	})
 	reg(v("Reach"), func(ex *Exec, a []Value, _ *Frame) Value {
